@@ -132,11 +132,35 @@ def run_history(ctx, W, ws, ops, lines_out, impl_out):
     return None, None
 
 
+def gen_history(rng):
+    """operations with *memory*: arguments of earlier operations are reused (the same string again right after a
+    mode toggle, the same integer through another width) so that caching / stale-state defects can show"""
+    ops = []
+    for _ in range(rng.randrange(1, 13)):
+        r = rng.random()
+        prev_str = [o for o in ops if o[0] in ("str", "estr", "fstr", "festr")]
+        prev_int = [o for o in ops if o[0] in LIMITS]
+        if r < 0.22 and prev_str:
+            s = rng.choice(prev_str[-2:])[1]
+            if rng.random() < 0.7:
+                ops.append(("san", rng.random() < 0.5))
+            k = rng.choice(["str", "estr", "fstr", "festr"])
+            if k in ("str", "estr"):
+                ops.append((k, s))
+            else:
+                ops.append((k, s, len(s) + rng.choice([0, 0, 1, 3, -1]), rng.random() < 0.5))
+        elif r < 0.30 and prev_int:
+            ops.append((rng.choice(list(LIMITS)), rng.choice(prev_int)[1]))
+        else:
+            ops.append(gen_op(rng))
+    return ops
+
+
 def histories(ctx):
     rng = ctx.rng
     n = 250_000 if ctx.thorough else 25_000
     for _ in range(n):
-        yield [gen_op(rng) for _ in range(rng.randrange(1, 13))]
+        yield gen_history(rng)
 
 
 def run(ctx: Ctx):
